@@ -162,18 +162,30 @@ func (r *robustImpl) exec(op string) string {
 	return "bad-op"
 }
 
-// sessRaw: acceptor FIX.4.2 brought into <state>, fed raw bytes, then probed with a TestRequest.
+// sessRaw: acceptor (FIX.4.2, or the BeginString behind `@` in <state>) brought into <state>, fed raw bytes, then probed
+// with a TestRequest.
 func (r *robustImpl) sessRaw(state string, raw []byte) string {
+	bs := "FIX.4.2"
+	if i := strings.IndexByte(state, '@'); i >= 0 {
+		state, bs = state[:i], state[i+1:]
+	}
 	st := quickfix.NewSessionSettings()
-	st.Set(config.BeginString, "FIX.4.2")
+	st.Set(config.BeginString, bs)
 	st.Set(config.SenderCompID, "SND")
 	st.Set(config.TargetCompID, "TGT")
-	id := quickfix.SessionID{BeginString: "FIX.4.2", SenderCompID: "SND", TargetCompID: "TGT"}
+	if bs == "FIXT.1.1" {
+		st.Set(config.DefaultApplVerID, "9")
+	}
+	id := quickfix.SessionID{BeginString: bs, SenderCompID: "SND", TargetCompID: "TGT"}
 	v, err := quickfix.VerifNewSession(false, id, quickfix.NewMemoryStoreFactory(), st, quickfix.NewNullLogFactory(), nullApp{})
 	mustf(err, "session")
 	defer v.Close()
 	hdr := func(kind string, seq int, extra ...string) []byte {
-		return wireBytes(append([]string{"8=FIX.4.2", "35=" + kind, "49=TGT", "56=SND", "34=" + strconv.Itoa(seq), "52=@0"}, extra...))
+		f := []string{"8=" + bs, "35=" + kind, "49=TGT", "56=SND", "34=" + strconv.Itoa(seq), "52=@0"}
+		if bs == "FIXT.1.1" && kind == "A" {
+			extra = append(extra, "1137=9")
+		}
+		return wireBytes(append(f, extra...))
 	}
 	if state != "latent" {
 		v.Connect(8)
@@ -229,6 +241,69 @@ func (g *robustGen) validMessage() []string {
 }
 
 type robustGen struct{ r *rng }
+
+// provoke: a well-formed message addressed to the session SND<-TGT of the given BeginString (next expected number 2 once
+// logged on) that draws one of the session's refusals or administrative answers.
+func (g *robustGen) provoke(bs string) ([]byte, string) {
+	r := g.r
+	kinds := []string{"sender", "target", "stale", "future", "seqreset-low", "gapfill-low", "too-low", "possdup-no-orig", "possdup-orig-later",
+		"no-sendingtime", "msgtype", "resend-req", "resend-req-backwards", "testreq-no-id", "logon-again", "logout", "reject", "too-high",
+		"empty-sender", "bad-seq", "bad-time", "app"}
+	what := kinds[r.intn(len(kinds))]
+	kind, snd, tgt, seq, tm := "D", "TGT", "SND", "2", "@0"
+	var extra []string
+	switch what {
+	case "sender":
+		snd = "BAD"
+	case "target":
+		tgt = "BAD"
+	case "empty-sender":
+		snd = ""
+	case "stale":
+		tm = "20000101-00:00:00"
+	case "future":
+		tm = "20990101-00:00:00"
+	case "bad-time":
+		tm = "yesterday"
+	case "seqreset-low":
+		kind, seq, extra = "4", r.pick([]string{"2", "9", "1"}), []string{"36=" + r.pick([]string{"1", "0"})}
+	case "gapfill-low":
+		kind, extra = "4", []string{"123=Y", "36=1"}
+	case "too-low":
+		seq = "1"
+	case "too-high":
+		seq = "7"
+	case "bad-seq":
+		seq = r.pick([]string{"", "x", "-3"})
+	case "possdup-no-orig":
+		seq, extra = "1", []string{"43=Y"}
+	case "possdup-orig-later":
+		seq, extra = r.pick([]string{"1", "2"}), []string{"43=Y", "122=20990101-00:00:00"}
+	case "no-sendingtime":
+		tm = "-"
+	case "msgtype":
+		kind = r.pick([]string{"ZZ", "~", "zzz"})
+	case "resend-req":
+		kind, extra = "2", []string{"7=1", "16=0"}
+	case "resend-req-backwards":
+		kind, extra = "2", []string{"7=5", "16=" + r.pick([]string{"2", "x", ""})}
+	case "testreq-no-id":
+		kind = "1"
+	case "logon-again":
+		kind, extra = "A", []string{"98=0", "108=30", "141=" + r.pick([]string{"Y", "N"})}
+	case "logout":
+		kind = "5"
+	case "reject":
+		kind, extra = "3", []string{"45=1"}
+	case "app":
+		kind = r.pick([]string{"D", "8", "AE"})
+	}
+	f := []string{"8=" + bs, "35=" + kind, "49=" + snd, "56=" + tgt, "34=" + seq}
+	if tm != "-" {
+		f = append(f, "52="+tm)
+	}
+	return wireBytes(append(f, extra...)), what
+}
 
 func (g *robustGen) mutate(b []byte) []byte {
 	r := g.r
@@ -316,8 +391,25 @@ func genRobust(r *rng, tier string, idx int, o *out, do func(string) string) str
 			o.kind("dictxml." + res)
 		default:
 			stt := r.pick([]string{"latent", "logon", "insession", "resend", "pending", "logout"})
-			res = do("sessraw " + stt + " " + hx(b))
+			bs := r.pick([]string{"FIX.4.0", "FIX.4.1", "FIX.4.2", "FIX.4.3", "FIX.4.4", "FIXT.1.1"})
+			switch {
+			case r.chance(1, 2):
+				// a well-formed message of this session that the session has to refuse or answer (every reject path, with
+				// and without a tag to name), now and then damaged afterwards
+				var what string
+				b, what = g.provoke(bs)
+				o.kind("sessraw.provoke." + what)
+				if r.chance(1, 4) {
+					b = g.mutate(b)
+				}
+			case r.chance(3, 4):
+				if i := bytes.IndexByte(b, 1); i > 2 && bytes.HasPrefix(b, []byte("8=")) {
+					b = append([]byte("8="+bs), b[i:]...) // BodyLength and CheckSum do not cover / are not checked before this field
+				}
+			}
+			res = do("sessraw " + stt + "@" + bs + " " + hx(b))
 			o.kind("sessraw." + stt + "." + strings.ReplaceAll(res, " ", "_"))
+			o.kind("sessraw.bs." + bs)
 		}
 		o.nontrivial(strconv.Itoa(len(b)) + ":" + string(b))
 	}
